@@ -262,10 +262,13 @@ def premises_of(res):
     for cls, side in PREMISE_CLASSES:
         out.append((cls.__name__, cls(res, rows[0] if side == "start" else rows[-1]), side, True))
         covered.add((cls, side))
+    rsv = build_utils.OverhangResolver(error_length=1)
+    book = rsv.premises_by_fragment_key
+    n_before = 0
     for pos, frag in (("start", rows[0]), ("end", rows[-1])):
-        rsv = build_utils.OverhangResolver(error_length=1)
         rsv.add_overhang_premise(frag, res)
-        made = [p for lst in rsv.premises_by_fragment_key.values() for p in lst]
+        made = [p for lst in book.values() for p in lst][n_before:]
+        n_before += len(made)
         if len(made) != 1:
             out.append((f"add_overhang_premise({pos} row) made {len(made)} premises, expected 1", None, None, False))
             continue
@@ -274,9 +277,8 @@ def premises_of(res):
         side = pos if len(rows) > 1 else (premise_side(prem) or pos)
         out.append((f"made by add_overhang_premise for the {pos} row", prem, side, (type(prem), side) not in covered))
     if len(rows) > 2 and not isinstance(rows[1], Gap):
-        rsv = build_utils.OverhangResolver(error_length=1)
         rsv.add_overhang_premise(rows[1], res)
-        if rsv.premises_by_fragment_key:
+        if sum(len(lst) for lst in book.values()) != n_before:
             out.append(("add_overhang_premise made a premise for a row that is not terminal", None, None, False))
     return out
 
@@ -414,8 +416,11 @@ def run(tier, seed, **opts):
         f"scaffolds of rows from {len(ROW_KINDS)} kinds (gap 1-2, fragment 1-3 on either strand) x every bait "
         f"1 <= a <= b <= total+2 x every sequence of <= {depth} operations from {len(OPS)} (discard_start, discard_end, "
         f"trim_large_overhangs(e in {ERR_LENGTHS}), trim_fragment(first|last, 4 keep-flag combinations)), explored over "
-        "distinct states; non-trivial = distinct (scaffold, bait) with a non-empty lookup result; evaluations = "
-        "operation applications + states checked"
+        "distinct states; every state is judged on the OverlapResult attributes and on the figures of the "
+        "OverhangPremise objects for its first and last row (each subclass built directly and the ones "
+        "OverhangResolver.add_overhang_premise makes: bait overlap, what-if overhang, error delta, improves / "
+        f"makes_worse for error lengths {ERR_LENGTHS}, effect of apply); non-trivial = distinct (scaffold, bait) "
+        "with a non-empty lookup result; evaluations = operation applications + states checked"
     )
     counters = {"ops": 0, "states": 0}
     n_sc = 0
